@@ -46,9 +46,15 @@ ASSUMPTIONS = [
     "jit-vs-vmap on HalfCheetah: 4e-5 of the leaf scale); solver iteration counters are not compared",
     "an integer/bool mismatch between modes is excused as a float32 threshold tie (counted, not judged) only if "
     "perturbing the float inputs of the reference call by 3e-6 relative also flips it",
-    "twin comparison of collections: a divergence is excused as chaotic amplification only if re-running the "
-    "single-environment collection with policy parameters and start-state floats perturbed by 1e-6 relative "
-    "diverges in its discrete stream no later than the observed divergence",
+    "conditioning triage (only reached when a float leaf exceeds the tolerance above): the reference call is repeated "
+    "three times with every float argument -- environment parameters included -- perturbed by 2e-7 relative (about two "
+    "float32 ulps); a cross-mode difference of at most 30x the largest change these probes cause on that leaf is float32 "
+    "rounding amplified by the function's own conditioning (MuJoCo contact solver right after a reset, chaotic "
+    "dynamics), counted in ill_conditioned_differences_excused with the worst ratio in the unit notes, not judged",
+    "twin comparison of collections: the same triage on the single-environment collection (policy parameters, "
+    "environment parameters and start-state floats probed at 2e-7; a float divergence within 30x the probe's effect "
+    "is excused); an integer/bool divergence (sampled action, done flag) is excused only if a 1e-6 probe flips the "
+    "single-environment run's own integer/bool outputs",
     "RefMDP interpreter and float64 gae_ref are the semantics of the harness-defined FiniteMDP / of GAE",
     "true op-by-op evaluation (jax.disable_jit) is exercised for classic control only (MuJoCo: > 30 s per call)",
 ]
@@ -109,9 +115,9 @@ def _tol_mujoco(path, fn):
     return (1e-4, 1e-4)
 
 
-def _cmp(want, got, tol, fn="", exact_only=False, skip_exact=False):
+def _cmp(want, got, tol, fn="", exact_only=False, skip_exact=False, slack=None):
     """None if `got` agrees with `want`; else a dict describing the worst leaf.  kind in
-    structure|exact|float."""
+    structure|exact|float.  `slack`: {leaf path: extra absolute tolerance} (conditioning triage)."""
     fw, fg = _flat(want), _flat(got)
     if [p for p, _ in fw] != [p for p, _ in fg]:
         return {"kind": "structure", "want_paths": [p for p, _ in fw][:8], "got_paths": [p for p, _ in fg][:8]}
@@ -135,7 +141,8 @@ def _cmp(want, got, tol, fn="", exact_only=False, skip_exact=False):
             if not fin.any():
                 continue
             scale = max(1.0, float(np.max(np.abs(a64[fin]))))
-            excess = np.where(fin, np.abs(a64 - b64) - (rtol * np.abs(a64) + atol * scale), -1.0)
+            extra = 0.0 if slack is None else float(slack.get(p, 0.0))
+            excess = np.where(fin, np.abs(a64 - b64) - (rtol * np.abs(a64) + atol * scale + extra), -1.0)
             m = float(np.max(excess))
             if m > 0 and (worst is None or m > worst["excess"]):
                 j = int(np.argmax(excess))
@@ -151,6 +158,21 @@ def _cmp(want, got, tol, fn="", exact_only=False, skip_exact=False):
             if not np.array_equal(a, b):
                 return {"kind": "exact", "leaf": p, "want": a, "got": b}
     return worst
+
+
+def _deviation(want, other, dev):
+    """dev[path] = max over calls of max|other - want| per float leaf (same structure assumed)."""
+    for (p, a), (_, b) in zip(_flat(want), _flat(other)):
+        if a.size and a.shape == b.shape and np.issubdtype(a.dtype, np.inexact):
+            d = np.abs(a.astype(np.float64) - b.astype(np.float64))
+            d = d[np.isfinite(d)]
+            if d.size:
+                dev[p] = max(dev.get(p, 0.0), float(d.max()))
+    return dev
+
+
+ULP_SCALE = 2e-7   # relative size of the probe perturbation (about two float32 ulps)
+AMPLIFY = 30.0     # a cross-mode difference within 30x the probe's effect is amplified rounding
 
 
 def _bits_equal(a, b):
@@ -304,14 +326,14 @@ def _varies(outs):
     return False
 
 
-def _perturb_inputs(rng, s, a, ns, scale=3e-6):
+def _perturb_inputs(rng, s, a, ns, scale=3e-6, abs_scale=1e-7):
     import jax
     from jax import numpy as jnp
 
     def p(x):
         if isinstance(x, jax.Array) and jnp.issubdtype(x.dtype, jnp.floating):
             u = rng.uniform(-1, 1, size=x.shape)
-            return (x * (1 + scale * u) + 1e-7 * rng.uniform(-1, 1, size=x.shape)).astype(x.dtype)
+            return (x * (1 + scale * u) + abs_scale * rng.uniform(-1, 1, size=x.shape)).astype(x.dtype)
         return x
 
     return jax.tree.map(p, s), jax.tree.map(p, a), jax.tree.map(p, ns)
@@ -386,10 +408,39 @@ class _EnvJudge:
             return False
         if bad is None:
             bad = _cmp(want, got, self.tol, fn, skip_exact=True)
+        if bad is not None and bad["kind"] == "float" and "excess" in bad:
+            dev = self._sensitivity(fn, inputs, want)
+            bad2 = _cmp(want, got, self.tol, fn, skip_exact=True, slack={p: AMPLIFY * d for p, d in dev.items()})
+            if bad2 is None:
+                ctx.monitor("ill_conditioned_differences_excused")
+                ex = ctx.notes.setdefault("ill_conditioned", {}).setdefault(f"{self.label}/{fn}", {})
+                leaf = bad["leaf"]
+                ratio = bad["absdiff"] / max(dev.get(leaf, 0.0), 1e-300)
+                if ratio > ex.get("worst_ratio_to_probe", 0.0):
+                    ex.update(worst_ratio_to_probe=ratio, leaf=leaf, absdiff=bad["absdiff"], probe_effect=dev.get(leaf, 0.0),
+                              mode=mode)
+                return True
+            bad = {**bad2, "probe_effect_on_leaf": dev.get(bad2.get("leaf"), 0.0)}
         if bad is not None:
             self.viol(f"{fn}-{mode}-differs-from-jit", {"fn": fn, "mode": mode, **detail, **bad})
             return False
         return True
+
+    def _sensitivity(self, fn, inputs, want):
+        """How much does the reference (jit) answer move when every float argument -- the environment's own
+        parameters included -- is perturbed by about two ulps?  {leaf path: max abs change}."""
+        s, a, ns, k = inputs
+        dev = {}
+        for _ in range(3):
+            ps, pa, pns = _perturb_inputs(self.ctx.rng, s, a, ns, scale=ULP_SCALE, abs_scale=0.0)
+            env_p = _perturb_floats(self.ctx.rng, self.env, ULP_SCALE)
+            try:
+                o = self.jf[fn](env_p, ps, pa, pns, k)
+            except Exception:
+                continue
+            self.ctx.monitor("conditioning_probes")
+            _deviation(want, o, dev)
+        return dev
 
     def _threshold_tie(self, fn, inputs, want):
         s, a, ns, k = inputs
@@ -770,24 +821,29 @@ def _perturb_floats(rng, tree, scale=1e-6):
     return jax.tree.map(p, tree)
 
 
-def _chaotic(ctx, single, env, pol, ss_e, cb, key_e, out_e):
-    """Does the single-environment collection itself change its integer/bool outputs under a 1e-6 relative
-    perturbation of the policy parameters and the start state?  Then a divergence proves nothing."""
+def _chaotic(ctx, single, env, pol, ss_e, cb, key_e, out_e, scale=1e-6):
+    """Probe the single-environment collection itself: policy parameters, environment parameters and the float
+    part of the start state are perturbed by `scale` (relative).  -> (did an integer/bool output change?,
+    {leaf path: max abs change of a float output})."""
     import equinox as eqx
 
+    dev, flipped = {}, False
     for _ in range(3):
-        pol_p = _perturb_floats(ctx.rng, pol)
+        pol_p = _perturb_floats(ctx.rng, pol, scale)
+        env_p = _perturb_floats(ctx.rng, env, scale)
         ss_p = ss_e
         if hasattr(ss_e, "env_state"):
-            ss_p = eqx.tree_at(lambda s: s.env_state, ss_e, _perturb_floats(ctx.rng, ss_e.env_state))
+            ss_p = eqx.tree_at(lambda s: s.env_state, ss_e, _perturb_floats(ctx.rng, ss_e.env_state, scale))
         try:
-            out_p = single(env, pol_p, ss_p, cb, key_e)
+            out_p = single(env_p, pol_p, ss_p, cb, key_e)
         except Exception:
-            return False
-        bad = _cmp(out_e, out_p, _tol_coll, exact_only=True)
-        if bad is not None:
-            return True
-    return False
+            continue
+        ctx.monitor("conditioning_probes")
+        if _cmp(out_e, out_p, _tol_coll, exact_only=True) is not None:
+            flipped = True
+        else:
+            _deviation(out_e, out_p, dev)
+    return flipped, dev
 
 
 def _twin(ctx, tag, kind, single, vm, env, pol, ss, cb, keys, E, info):
@@ -821,9 +877,22 @@ def _twin(ctx, tag, kind, single, vm, env, pol, ss, cb, keys, E, info):
         bad = _cmp(want, got, _tol_coll)
         if bad is None:
             continue
-        if bad["kind"] != "structure" and _chaotic(ctx, single, env, pol, _tidx(ss, e), cb, keys[e], want):
-            ctx.monitor("chaotic_divergences_excused")
-            continue
+        if bad["kind"] == "exact":
+            # a sampled action / done flag on a float32 tie: does the single run itself flip under 1e-6?
+            if _chaotic(ctx, single, env, pol, _tidx(ss, e), cb, keys[e], want, 1e-6)[0]:
+                ctx.monitor("chaotic_divergences_excused")
+                continue
+        elif bad["kind"] == "float":
+            # rounding differences amplified along the rollout: compare with the effect of a two-ulp probe
+            flipped, dev = _chaotic(ctx, single, env, pol, _tidx(ss, e), cb, keys[e], want, ULP_SCALE)
+            bad2 = _cmp(want, got, _tol_coll, slack={p: AMPLIFY * d for p, d in dev.items()})
+            if bad2 is None or flipped:
+                ctx.monitor("chaotic_divergences_excused")
+                ctx.notes.setdefault("amplified", []).append(
+                    {"tag": tag, "env": e, "leaf": bad["leaf"], "absdiff": bad["absdiff"], "probe_effect": dev.get(bad["leaf"]),
+                     "probe_flipped_discrete_stream": flipped})
+                continue
+            bad = {**bad2, "probe_effect_on_leaf": dev.get(bad2.get("leaf"), 0.0)}
         foreign = [o for o in range(E) if o != e and _cmp(singles[o], got, _tol_coll) is None]
         ctx.violation(f"{kind}-vectorised-{_field(bad.get('leaf'))}-differs-from-single-env-collection",
                       {**info, "env": e, "whole_output_equals_single_run_of_env": foreign, **bad})
